@@ -606,3 +606,19 @@ fn test_alternating_sequence() {
 
     assert_eq!(Aa_V, vec![1., 1., 1., -1., 1., -1.]);
 }
+
+// ---------------------------------------------------------------------------
+// verification hooks (add-only, off unless feature `verif-hooks` is enabled)
+#[cfg(feature = "verif-hooks")]
+impl<T> ChordalInfo<T>
+where
+    T: FloatT,
+{
+    pub(crate) fn vh_find_compact_A_b_and_cones(
+        &mut self,
+        A: &CscMatrix<T>,
+        b: &[T],
+    ) -> (CscMatrix<T>, Vec<T>, Vec<SupportedConeT<T>>) {
+        self.find_compact_A_b_and_cones(A, b)
+    }
+}
